@@ -175,6 +175,19 @@ mechanisms:
         forward_cookies: [ "sess" ]
         subject:
           id: sub
+    - id: generic_sl
+      type: generic
+      config:
+        identity_info_endpoint:
+          url: http://userinfo/ended
+          method: GET
+        authentication_data_source:
+          - cookie: sess
+        forward_cookies: [ "sess" ]
+        subject:
+          id: sub
+        session_lifespan:
+          active: active
     - id: generic_fb
       type: generic
       config:
@@ -209,6 +222,15 @@ mechanisms:
           url: http://pdp/check
           method: POST
         payload: "{{ .Subject.ID }}"
+    - id: remote_x
+      type: remote
+      config:
+        endpoint:
+          url: http://pdp/verdict-in-payload
+          method: POST
+        payload: "{{ .Subject.ID }}"
+        expressions:
+          - expression: "Payload.allow == true"
   contextualizers:
     - id: ctx
       type: generic
@@ -291,6 +313,8 @@ var authnPool = []authnSpec{
 	{"jwt", "jwt", false, "jwks", "alice-jwt", 0}, {"jwt_fb", "jwt", true, "jwks", "alice-jwt", 0},
 	{"introspect", "introspect", false, "introspect", "alice-tok", 0}, {"introspect_fb", "introspect", true, "introspect", "alice-tok", 0},
 	{"generic", "generic", false, "userinfo", "alice-sess", 0}, {"generic_fb", "generic", true, "userinfo", "alice-sess", 0},
+	// the identity provider knows the session but reports it as ended: credentials found and rejected
+	{"generic_sl", "generic_sl", false, "userinfo", "alice-sess", 0},
 }
 
 type handlerSpec struct {
@@ -306,6 +330,8 @@ var subjectHandlerPool = []handlerSpec{
 	{id: "allow", typ: "authorizer", alwaysOK: 1}, {id: "deny", typ: "authorizer", alwaysOK: -1},
 	{id: "cel_true", typ: "authorizer", alwaysOK: 1}, {id: "cel_false", typ: "authorizer", alwaysOK: -1},
 	{id: "remote", typ: "authorizer", party: "pdp"},
+	// the decision point answers 200 with a negative verdict in the document; the catalogue's expressions reject it
+	{id: "remote_x", typ: "authorizer", party: "pdp", alwaysOK: -1},
 	{id: "ctx", typ: "contextualizer", party: "ctxsvc"}, {id: "ctx_cont", typ: "contextualizer", party: "ctxsvc", cont: true},
 	// fails with a configuration error while the request is served (every kind of error has to end in a refusal)
 	{id: "ctx_badtpl", typ: "contextualizer", alwaysOK: -1},
@@ -371,6 +397,10 @@ func (p pipeline) yamlGuarded(id, path string, proxy bool, guard int) string {
 		fmt.Fprintf(&b, "    - %s: %s\n", h.typ, h.id)
 		if h.cond != 0 {
 			fmt.Fprintf(&b, "      if: %q\n", condForms[h.form][h.cond])
+		}
+		if h.id == "remote_x" {
+			// a rule-level config which names no expressions: those of the catalogue entry stay in force
+			b.WriteString("      config:\n        cache_ttl: 0s\n")
 		}
 	}
 	for _, h := range p.handlers {
@@ -593,6 +623,11 @@ func getWorlds() (*worlds, error) {
 				return
 			}
 			rw.Header().Set("Content-Type", "application/json")
+			if req.URL.Path == "/ended" {
+				// the session is known, but it has been ended: only an authenticator looking at it can tell
+				json.NewEncoder(rw).Encode(map[string]any{"sub": "alice-sess", "active": false})
+				return
+			}
 			json.NewEncoder(rw).Encode(map[string]any{"sub": "alice-sess"})
 		})
 		w.net.HandleFunc("pdp", func(rw http.ResponseWriter, req *http.Request) {
@@ -601,6 +636,11 @@ func getWorlds() (*worlds, error) {
 				return
 			}
 			rw.Header().Set("Content-Type", "application/json")
+			if req.URL.Path == "/verdict-in-payload" {
+				// answers 200 and says no in the document: the expressions of the authorizer decide
+				rw.Write([]byte(`{"allow":false}`))
+				return
+			}
 			rw.Write([]byte(`{"ok":true}`))
 		})
 		w.net.HandleFunc("ctxsvc", func(rw http.ResponseWriter, req *http.Request) {
@@ -830,6 +870,18 @@ func authnOutcome(a authnSpec, c creds, partyOK map[string]bool) string {
 		return aOK
 	case "unauth":
 		return aRejected
+	}
+	if a.kind == "generic_sl" {
+		switch c.sess {
+		case 0:
+			return aNone
+		case 3:
+			return aUnjudged
+		}
+		if !partyOK[a.party] {
+			return aFault
+		}
+		return aRejected // an unknown session is refused by the provider, a known one is reported as ended
 	}
 	switch c.of(a.kind) {
 	case 0:
